@@ -177,7 +177,7 @@ func startWatchdog() {
 				if same >= limit {
 					info, _ := WatchdogInfo.Load().(string)
 					fmt.Fprintf(os.Stderr, "SIM-WATCHDOG: step did not reach quiescence in %ds wall: %s\n", limit/2, info)
-					buf := make([]byte, 1<<22)
+					buf := make([]byte, 1<<27)
 					n := runtime.Stack(buf, true)
 					os.Stderr.Write(buf[:n])
 					if p := os.Getenv("VERIF_WATCHDOG_FILE"); p != "" {
